@@ -73,6 +73,14 @@ def flowExp (g : Grid d α) (n : Fin d → Nat) (a : Axes) (scale : α) (steps :
   let c := expAxes a
   flowAxes g c a (expv ac .border n scale false steps (flowAxes g a c f))
 
+/-- spatial/nonrigid.py `DenseVectorFieldTransform.grid_` @119-143 for one sample of the new parameter grid: `s` is the
+    old field (vectors in the cube axes `a` of the old grid `g`) sampled at that point (`FlowFields.sample`: linear
+    interpolation); `sample` re-expresses it on the new grid `g'` in the same-named axes
+    (`grid_transform_vectors(v, g, a, g', a)`), and `flow.axes(Axes.from_grid(g'))` converts it to the cube axes `a'` of
+    the new grid. The result is what `data_()` stores. -/
+def denseRegridAt (g g' : Grid d α) (a a' : Axes) (s : Vec d α) : Vec d α :=
+  g'.transformVectors a a' (g.transformVectorsTo a g' a s)
+
 /-- the same method as it was before the repair (`data = self.tensor()`): the *unconverted*
     vectors are exponentiated as if they were cube vectors. Kept for the refutation theorem. -/
 def flowExpUnrepaired (g : Grid d α) (n : Fin d → Nat) (a : Axes) (scale : α) (steps : Nat) (f : VField d α) :
